@@ -518,7 +518,7 @@ def functionEnvKeys : List String :=
   ["names", "constant values", "predeclared values", "universal values", "function values", "global values",
    "default parameter values", "free variables", "parameters", "code"]
 
-/-- the `switch len(reasons)` of `diffEnv`; with no reason at all `reasons[:len(reasons)-1]` panics -/
+/-- the `switch len(reasons)` of `diffEnv` for at least one reason (`case 0` returns before: see `diffEnv`) -/
 def joinReasons : List String → Except Err String
   | [] => .error .indexPanic
   | [r] => .ok r
@@ -560,9 +560,12 @@ def diffEnv (oldEnv : Option Val) (sameEncoding : Bool) (newEnv : Val) : EnvResu
         | .error _ => .panic
         | .ok (some (.mapping o n edits)) =>
           let reasons := functionEnvKeys.filter fun k => hasEdit (.str k.toUTF8.toList) edits
-          match joinReasons reasons with
-          | .ok r => .changed (r ++ " changed") (.mapping o n edits)
-          | .error _ => .panic
+          match reasons with
+          | [] => .changed "environment changed" (.mapping o n edits)   -- case 0: differs in a part that is not listed
+          | _ =>
+            match joinReasons reasons with
+            | .ok r => .changed (r ++ " changed") (.mapping o n edits)
+            | .error _ => .panic
         | .ok _ => .panic                       -- panic("expected a diff in unequal environments")
       | .dict _, _ => .error "new environment is not a dict"
       | _, _ => .error "old environment is not a dict"
